@@ -75,9 +75,12 @@ TreeWellFormed == WellFormed(doc)
 \* each element owns one namespace node per prefix
 NsPrefixUnique == \A e \in Ids(doc) : \A a \in NsOf(doc, e), b \in NsOf(doc, e) : doc[a].lo = doc[b].lo => a = b
 \* an element has a node for every binding in scope at its parent (inherited or overridden)
+\* (the default namespace may be undeclared with xmlns="")
 NsInherited == \A e \in Ids(doc) : doc[e].k = "elem" =>
-                  \A a \in NsOf(doc, doc[e].p) : \E b \in NsOf(doc, e) : doc[b].lo = doc[a].lo
+                  \A a \in NsOf(doc, doc[e].p) : doc[a].lo # <<>> => \E b \in NsOf(doc, e) : doc[b].lo = doc[a].lo
+NoEmptyDefaultNs == \A n \in Ids(doc) : doc[n].k = "ns" => ~(doc[n].lo = <<>> /\ doc[n].v = <<>>)
 \* the open stack is the ancestor chain of the insertion point
 OpenIsChain == \A i \in 2..Len(open) : doc[open[i]].p = open[i - 1] /\ doc[open[i]].k = "elem"
-NodesOnlyGrow == [][Len(doc') >= Len(doc) /\ \A n \in Ids(doc) : doc'[n].k = doc[n].k /\ doc'[n].p = doc[n].p]_vars
+\* tree nodes and attributes, once added, stay (a namespace node may be removed by an undeclaration)
+NodesOnlyGrow == [][\A n \in Ids(doc) : doc[n].k # "ns" => \E m \in Ids(doc') : doc'[m].k = doc[n].k /\ doc'[m].lo = doc[n].lo /\ doc'[m].v = doc[n].v]_vars
 =============================================================================
